@@ -20,19 +20,19 @@ CHECKS = {
          "State key omits 2Q ghost lists; chain of 5-6 headers; Sync+quiescence after each op (the property is stated for synced writes).", "2.2 C04"),
  "C08": ("E1-seqx", "model_checking",
          "explicit-state enumeration: every reachable store state x every (from,to) pair x continuation x single write-fault position, executed on the real store and compared with the reference model",
-         "For each distinct state from the BFS (depth 2 quick / 3 thorough), all (from,to) pairs over 10 relative positions incl. 0 and 2^64-1, with/without a reading OnDelete handler; rejected ranges must leave observation vector and raw datastore image identical; accepted ones must remove raw keys, pending entries and every lookup, keep outside headers, set pointers, and stay deleted across 8 continuations (restart, appends, re-append); every position of one failing datastore write during the delete is enumerated with the part-way-failure oracle and retry.",
+         "For each distinct state from the BFS (depth 2 quick / 3 thorough), all (from,to) pairs over 10 relative positions incl. 0 and 2^64-1, with/without a reading OnDelete handler; rejected ranges must leave observation vector and raw datastore image identical; accepted ones must remove raw keys, pending entries and every lookup, keep outside headers, set pointers, and stay deleted across 8 continuations (restart, appends, re-append); every position of one failing datastore write during the delete is enumerated with the part-way-failure oracle and retry; a handler that rejects every height >= X (X over the first positions of the range) is a second part-way failure, run on the sequential path and, with the parallel path forced through the threshold hook, on the parallel path (several workers fail in one call): rejected heights stay readable, the error is surfaced, a retry from the reported Tail completes.",
          "Open findings F06/F07 (write-fault paths) are reported as KNOWN-FINDING; fault model = one failing write attempt (put/delete/batch/commit).", "2.2 C08"),
  "C14": ("E1-seqx", "fault_enumeration",
          "exhaustive enumeration of handler fault positions (handler i, invocation k, error|panic) over every reachable state x accepted range, sequential and parallel deletion path, on the real store",
-         "Every accepted range in every BFS state, with 1 and 2 registered handlers that read the header through GetByHeight, no fault and every (i,k,error|panic); oracle: per removed height each handler exactly once, header readable inside the handler, no datastore delete of its keys in the commit log before the last handler returned, failing height stays readable, error surfaced, tail-side retry re-invokes handlers and completes. The parallel path is reached by lowering the threshold through the verif hook.",
+         "Every accepted range in every BFS state, with 1 and 2 registered handlers that read the header through GetByHeight, no fault and every (i,k,error|panic); oracle: per removed height each handler exactly once, header readable inside the handler, no datastore delete of its keys in the commit log before the last handler returned, failing height stays readable, error surfaced, tail-side retry re-invokes handlers and completes; plus a handler rejecting every height >= X (several parallel workers failing at different heights): Tail never moves past X, nothing >= X is removed, the retry re-invokes the handler exactly once per remaining height. The parallel path is reached by lowering the threshold through the verif hook.",
          "Parallel path runs with real goroutines (48 workers) inside the bubble: its internal interleavings are sampled by the Go scheduler, not enumerated.", "2.2 C14"),
  "C06": ("E3-crashx", "fault_enumeration",
          "exhaustive crash-point enumeration (every commit-log prefix of every transition of the explored state graph) and exhaustive placement of 1..3 consecutive failing flush writes, on the real store",
          "BFS over {Append slices, DeleteRanges, Restart} (depth 3 quick / 4 thorough) x batch sizes x datastore flavour; (a) in every state a clean Stop/Start must reproduce the whole observation vector; (b) for every transition every prefix of the datastore commit log inside the last operation and the final Stop is reopened by a fresh Store: Start succeeds, Head/Tail resolve, no gap, committed headers retrievable, no dangling pointer, appending the continuation moves Head to the tip; (c) every placement of 1..3 failing batch-creation/commit writes is driven to quiescence in virtual time (retry back-off) and checked with the C04 oracle + restart.",
          "Crash granularity = one direct write or one batch commit; torn single writes are not modelled. The Stop-vs-flush-loop interleaving is not enumerated here (see C17/C12 engine). Open finding F08 reported as KNOWN-FINDING.", "2.2 C06"),
  "C05": ("E1-netx", "fault_enumeration",
-         "deviation-bounded exhaustive enumeration of peer misbehaviour assignments (27-entry catalogue x every request position incl. retries/remainders) against the real Exchange over libp2p mocknet in a synctest bubble",
-         "The real p2p.Exchange.GetRangeByHeight runs against scripted peers; deviations are bound to the n-th request for an origin (so peer selection order cannot change the outcome) and enumerated breadth-first: every single deviation at every request position, then every second (thorough: third) deviation at every position the first run exposes, for chunk sizes {1,2,3,(5)}, 1-4 peers, deadline-honouring and deadline-ignoring transports, plus all degenerate (to<=from+1) requests. Oracle: no panic, degenerate => prompt error, a nil error => non-empty exact run from+1.. below to of the honest chain headers.",
+         "deviation-bounded exhaustive enumeration of peer misbehaviour assignments (28-entry catalogue x every request position incl. retries/remainders) against the real Exchange over libp2p mocknet in a synctest bubble; plus stateless DFS over the thread schedules of the session (instrumented p2p package) with preemption bounding",
+         "The real p2p.Exchange.GetRangeByHeight runs against scripted peers; deviations are bound to the n-th request for an origin (so peer selection order cannot change the outcome) and enumerated breadth-first: every single deviation at every request position, then every second (thorough: third) deviation at every position the first run exposes, for chunk sizes {1,2,3,(5)}, 1-4 peers, deadline-honouring and deadline-ignoring transports, plus all degenerate (to<=from+1) requests. Oracle: no panic, degenerate => prompt error, a nil error => non-empty exact run from+1.. below to of the honest chain headers. Schedule part (engine E2 on the p2p package, real honest servers): every schedule with <= 1 preemption (thorough <= 2) of the caller, the session dispatcher, the per-request goroutines and the tracker for a single request answered partially and completed by another peer (both peer orders), two and three chunks on two peers; the result must be exactly from+1..to-1 ascending.",
          "mocknet transport with a deadline decorator; forged headers carry a foreign signature (no equivocation by key holders).", "2.4 C05"),
  "C09": ("E1-netx", "model_checking",
          "exhaustive enumeration of ordered arrival sequences of peer answers (imposed by release gates) against the real Exchange.Head, compared step by step with a reference fold of the quorum rule",
@@ -51,28 +51,28 @@ CHECKS = {
          "All assignments for n=1,2, reduced x full for n=3 (thorough: full 17^3, n=4 with <=2 bad), all 6 arrival permutations for the reduced catalogue; x {Get, GetByHeight} x {present, absent, zero target} x chain id {set, unset} x transport {honours, ignores deadlines}. Oracle: never (zero,nil), no panic, returned header validated/right chain/right hash, some peer really sent it, first valid answer wins, error when none valid, returns by the caller's deadline.",
          "A header type whose own UnmarshalBinary panics is excluded (type-level).", "2.4 C13"),
  "C18": ("E1-netx", "model_checking",
-         "exhaustive enumeration of the configuration product (chunk size, range length 1..3m, peers, per-peer availability vectors, one benign fault x faulty peer) with real ExchangeServers and the real Exchange over mocknet",
-         "m in {1,2,3,5,64}, L=1..3m (64: {1,63,64,65,128,150}), 1-3 (thorough 4) honest peers with availability in {empty, up to from, half, full}^P (>=1 full), faults {none, slow beyond RequestTimeout, disconnect after first answer, store grows}; result must be exactly from+1..to-1 ascending with nil error before the caller's deadline; plus Head/Get/GetByHeight byte-exact round trips.",
-         "At most one benign fault per run; servers use a simple honest in-memory store.", "2.4 C18"),
+         "exhaustive enumeration of the configuration product (chunk size, range length 1..3m, peers, per-peer availability vectors, one benign fault x faulty peer) with real ExchangeServers and the real Exchange over mocknet; plus stateless DFS over the thread schedules of the session (instrumented p2p package) with preemption bounding",
+         "m in {1,2,3,5,64}, L=1..3m (64: {1,63,64,65,128,150}), 1-3 (thorough 4) honest peers with availability in {empty, up to from, half, full}^P (>=1 full), faults {none, slow beyond RequestTimeout, disconnect after first answer, store grows, connection dropped 1ms / 4ms into the call while every answer takes 3ms (peer idle in the session queue)}; result must be exactly from+1..to-1 ascending with nil error before the caller's deadline; plus Head/Get/GetByHeight byte-exact round trips. Schedule part: the same scenarios as C05's schedule part (all schedules with <= 1 preemption, thorough <= 2, of the client's goroutines against real servers).",
+         "At most one benign fault per run; servers use a simple honest in-memory store; in the schedule part a network round trip is atomic within the requesting thread's step.", "2.4 C18"),
  "C03": ("E1-syncx", "model_checking",
-         "explicit-state BFS over environment event histories (gossip deliveries, Head() calls, held getter answers, clock advances) on the real Syncer + real Store, oracle in every state",
-         "Event alphabet: deliver {next, skip 2/3, duplicate, stale, forged adjacent, forged far (bifurcation), bad link, wrong chain, future-dated}, Head(), answer of the held getter call {full, prefix, error}, advance {40s, 2h}; depth 4 quick / 6 thorough over trust ranges {unlimited, 2, (1)} and batch sizes; in every state: every stored header (datastore scan + pending) is the verified chain's header, the store is one run Tail..Head, every invalid delivery returned an error, no unverified header is pending / the sync target / the origin of a range request.",
+         "explicit-state BFS over environment event histories (gossip deliveries, Head() calls, held getter answers, clock advances) on the real Syncer + real Store, oracle in every state; plus stateless DFS over thread schedules of the instrumented sync package with preemption bounding",
+         "Event alphabet: deliver {next, skip 2/3, duplicate, stale, forged adjacent, forged far (bifurcation), bad link, wrong chain, future-dated}, Head(), answer of the held getter call {full, prefix, error}, advance {40s, 2h}; depth 4 quick / 6 thorough over trust ranges {unlimited, 2, (1)} and batch sizes; in every state: every stored header (datastore scan + pending) is the verified chain's header, the store is one run Tail..Head, every invalid delivery returned an error, no unverified header is pending / the sync target / the origin of a range request. Schedule part (engine E2 on the sync package): all schedules with <= 1 preemption (thorough <= 2) of concurrent gossip handler threads and the sync loop (target vs duplicate vs stale; three heads in any order; thorough: forged vs honest target); only chain headers stored in one run, every accepted head synced.",
          "Event granularity (bubble quiescence between events); while a delivery is parked in bifurcation no second delivery is issued (sync.Mutex blocking is invisible to synctest); zero headers are not delivered (the Subscriber never produces them).", "2.3 C03"),
  "C07": ("E1-syncx", "model_checking",
-         "explicit-state BFS over event histories with an honest held getter on the real Syncer + Store; quiescent-state oracle plus a recovery probe from every quiescent state",
-         "Events: deliver honest {next, skip 2, skip 3}, Head(), answer {full, prefix of 1, error}, advance 40s; depth 5 quick / 7 thorough. At every quiescent state: store head == highest verified head, State finished without error and SyncWait returns, unless a getter error aborted the attempt; and from every quiescent state one more valid head plus honest answers must complete the sync (so a lost trigger or wedged loop is a state, not a timeout).",
+         "explicit-state BFS over event histories with an honest held getter on the real Syncer + Store; quiescent-state oracle plus a recovery probe from every quiescent state; plus stateless DFS over thread schedules of the instrumented sync package with preemption bounding",
+         "Events: deliver honest {next, skip 2, skip 3}, Head(), answer {full, prefix of 1, error}, advance 40s; depth 5 quick / 7 thorough. At every quiescent state: store head == highest verified head, State finished without error and SyncWait returns, unless a getter error aborted the attempt; and from every quiescent state one more valid head plus honest answers must complete the sync (so a lost trigger or wedged loop is a state, not a timeout). Schedule part: all schedules with <= 1 preemption (thorough <= 2) of head deliveries racing with the sync loop, getter calls and a controlled asynchronous store (burst of heads during a running sync; sequential A,B,C deliveries vs D; getter error then next head): the store head reaches the highest accepted head and no error is left.",
          "Event granularity; liveness is evaluated at bubble quiescence in virtual time.", "2.3 C07"),
  "C15": ("E1-syncx", "model_checking",
          "exhaustive enumeration of (distance, trust range, candidate kind, failing fetch position) on the real gossip verifier with a real store",
-         "Subjective head in {1,5}, distance 2..12 (thorough 24), trust range 1..d and unlimited, honest or forged candidate, and for each the failure of every single intermediate fetch the fault-free run performs; accept iff honest and no needed fetch failed, refusal leaves the candidate neither pending nor stored, only chain headers are promoted, fetch count bounded by d*(floor(log2 d)+1).",
+         "Subjective head in {1,5}, distance 2..12 (thorough 24), trust range 1..d and unlimited, honest or forged candidate, and for each the failure of every single intermediate fetch the fault-free run performs, as a generic error or ErrNotFound, once or for every fetch from that one on; accept iff honest and no needed fetch failed, refusal leaves the candidate neither pending nor stored, only chain headers are promoted, fetch count bounded by d*(floor(log2 d)+1).",
          "Getter honest apart from injected fetch errors.", "2.3 C15"),
  "C16": ("E1-syncx", "model_checking",
          "exhaustive enumeration of the Validate-accepted parameter product x chain shapes x stores x reconfiguration pairs through the Syncer's public API",
          "PruningWindow {0,w/2,w,3w} x SyncFromHeight {0,1,3,6,h0,N,N+3} x SyncFromHash {none, below tail, mid, head, unknown} x blockTime {unset,b,10b} x trustingPeriod {small, large} x chain shapes {uniform, fast, slow, halted mid/tip, young, bursty} x stores {empty, [1..h0], [4..h0]} and all ordered pairs (thorough: triples) of 9 parameter sets as reconfigurations; oracle: no panic, Start/Head return and fail only for a non-existent tail, store stays one gap-free chain with 1<=Tail<=Head, nothing inside the window is pruned when spacing <= blockTime, getter never asked for heights outside the chain.",
          "Open finding F13 reported as KNOWN-FINDING.", "2.3 C16"),
  "C19": ("E1-syncx", "model_checking",
-         "explicit-state BFS over histories of Head() calls, clock advances, deliveries and held trusted-head answers on the real Syncer, per-call and per-state oracle",
-         "Stores {empty, fresh, stale, expired head (peers fresh / peers expired)}; events Head(), deliver next, advance {3s, 40s, 4000s}, answers of the held trusted-head request {newer, same, error, soft+header} and of the initialisation request {fresh tip, old, error}; depth 5 quick / 7 thorough. Per completed Head(): no request when recent, exactly one request carrying the subjective head when stale, re-initialisation only adopts non-expired heads; per state: at most one head request in flight (single flight) and results never decrease in completion order.",
+         "explicit-state BFS over histories of Head() calls, clock advances, deliveries and held trusted-head answers on the real Syncer, per-call and per-state oracle; plus stateless DFS over thread schedules of three concurrent Head() callers (instrumented sync package)",
+         "Stores {empty, fresh, stale, expired head (peers fresh / peers expired), stale head with trusted peers lagging behind gossip}; events Head(), deliver next, advance {3s, 40s, 4000s}, answers of the held trusted-head request {newer, same, one above the verified head, tip, error, soft+header} and of the initialisation request {fresh tip, old, error}; depth 5 quick / 7 thorough. Per completed Head(): no request when recent, exactly one request carrying the subjective head when stale, re-initialisation only adopts non-expired heads; per state: at most one head request in flight (single flight) and results never decrease in completion order. Schedule part: all schedules with <= 1 preemption (thorough <= 2) of three concurrent Head() callers on a stale head: exactly one request carrying the subjective head, results never decrease.",
          "Overlapping Head() callers are explored at event granularity (a second call while the first one's request is held).", "2.3 C19"),
  "C12": ("E2-schedx", "model_checking",
          "stateless DFS over thread schedules with iterative preemption bounding on the real store code (instrumented copy generated from the working tree, controlled scheduler on synctest quiescence)",
@@ -131,7 +131,7 @@ def main():
             {"name": "E1-inputs", "path": "harness/pure", "serves_properties": ["C01", "C02"], "kind_free_text": "exhaustive input-product enumeration on the real functions vs reference oracle"},
             {"name": "E1-netx", "path": "harness/p2px", "serves_properties": ["C05", "C09", "C10", "C11", "C13", "C18"], "kind_free_text": "real Exchange/ExchangeServer/Subscriber over libp2p mocknet inside a synctest bubble; scripted peers keyed by (origin, attempt), release gates for arrival order, deadline-honouring stream decorator"},
             {"name": "E1-syncx", "path": "harness/syncx", "serves_properties": ["C03", "C07", "C15", "C16", "C19"], "kind_free_text": "real sync.Syncer + real store.Store in a synctest bubble with a scripted contract-abiding getter (calls held until answered), capturing subscriber and virtual clock; BFS over event histories"},
-            {"name": "E2-schedx", "path": "harness/vrtsrc + harness/cmd/instrument + harness/schedx", "serves_properties": ["C12", "C17"], "kind_free_text": "controlled scheduler (one runnable thread at a time, decisions at synctest quiescence), source-to-source instrumentation of the repository package through a build overlay, stateless DFS with preemption bounding sharded over single-threaded worker processes"},
+            {"name": "E2-schedx", "path": "harness/vrtsrc + harness/cmd/instrument + harness/schedx", "serves_properties": ["C12", "C17", "C03", "C07", "C19", "C05", "C18"], "kind_free_text": "(harness/schedx on store, harness/schedsync on sync, harness/schedp2p on p2p) controlled scheduler (one runnable thread at a time, decisions at synctest quiescence), source-to-source instrumentation of the repository package through a build overlay, stateless DFS with preemption bounding sharded over single-threaded worker processes"},
             {"name": "E1-seqx", "path": "harness/vk/bfs.go + harness/storex", "serves_properties": ["C04", "C06", "C08", "C14"], "kind_free_text": "explicit-state BFS over operation histories on the real store (fresh instance + replay per successor, canonical state key), LogDS commit-log/fault-injecting datastore"},
         ],
         "checks": checks,
